@@ -188,6 +188,72 @@ class HarnessGen:
         w('std::mem::forget(v); std::mem::forget(r);')
         w.close()
 
+    # ------------------------------------------------------------------ C18 Packet trait laws
+    def h_c18d(self, w: W, t: str, L: int):
+        """decode / decode_full / decode_mut laws, and encode laws on the decoded value"""
+        w(f'#[kani::proof]\n#[kani::unwind({self.unwind(L) + 1})]')
+        w.open(f'fn c18d_{t}() {{')
+        w(f'let data: [u8; {L}] = kani::any();')
+        w('let n: usize = kani::any();')
+        w(f'kani::assume(n <= {L});')
+        w('let b: &[u8] = &data[..n];')
+        w(f'let d = {t}::decode(b);')
+        w(f'let f = {t}::decode_full(b);')
+        w('let mut s: &[u8] = b;')
+        w(f'let m = {t}::decode_mut(&mut s);')
+        w.open('match &d {')
+        w.open('Ok((v, rest)) => {')
+        w('if rest.is_empty() { assert!(f.as_ref().ok() == Some(v), "C18: decode_full differs from decode on an empty remainder"); }')
+        w('else { assert!(matches!(f, Err(DecodeError::TrailingBytesError)), "C18: decode_full does not report TrailingBytesError"); }')
+        w('assert!(m.as_ref().ok() == Some(v), "C18: decode_mut value differs from decode");')
+        w('assert!(s.len() == rest.len() && s.as_ptr() == rest.as_ptr(), "C18: decode_mut does not advance to decode\'s remainder");')
+        w('kani::cover!(true, "accepting path");')
+        w.close()
+        w.open('Err(e) => {')
+        w('assert!(match &f { Err(x) => derr_eq(x, e), _ => false }, "C18: decode_full error differs from decode");')
+        w('assert!(match &m { Err(x) => derr_eq(x, e), _ => false }, "C18: decode_mut error differs from decode");')
+        w('assert!(s.len() == n && s.as_ptr() == b.as_ptr(), "C18: decode_mut moved the slice on failure");')
+        w.close()
+        w.close()
+        w('std::mem::forget(d); std::mem::forget(f); std::mem::forget(m);')
+        w.close()
+
+    def _encode_laws(self, w: W, v: str):
+        oc = self.rr.ocap
+        w(f'let mut a = ArrBuf::<{oc}>::new();')
+        w(f'let ra = {v}.encode(&mut a);')
+        w(f'let rv = {v}.encode_to_vec();')
+        w(f'let rb = {v}.encode_to_bytes();')
+        w('let mut pre: Vec<u8> = Vec::new(); pre.push(0xAA); pre.push(0x55);')
+        w(f'let rp = {v}.encode(&mut pre);')
+        w.open('match &ra {')
+        w.open('Ok(()) => {')
+        w('assert!(rv.is_ok() && rb.is_ok() && rp.is_ok(), "C18: encode_to_vec / encode_to_bytes / append fail where encode succeeds");')
+        w(f'kani::assume(a.len <= {self.rr.mcmp});')
+        w('if let Ok(x) = &rv { assert!(bytes_eq_m(&a.buf, a.len, x, x.len()), "C18: encode_to_vec bytes differ from encode"); }')
+        w('if let Ok(x) = &rb { assert!(bytes_eq_m(&a.buf, a.len, x, x.len()), "C18: encode_to_bytes bytes differ from encode"); }')
+        w('assert!(pre.len() == 2 + a.len && pre[0] == 0xAA && pre[1] == 0x55, "C18: encoding into a non-empty buffer disturbed its content");')
+        w('assert!(bytes_eq_m(&a.buf, a.len, &pre[2..], pre.len() - 2), "C18: appended bytes differ from encode");')
+        w.close()
+        w.open('Err(e) => {')
+        w('assert!(match (&rv, &rb, &rp) { (Err(x), Err(y), Err(z)) => eerr_eq(x, e) && eerr_eq(y, e) && eerr_eq(z, e), _ => false }, "C18: provided encoders disagree with encode on failure");')
+        w.close()
+        w.close()
+        w('std::mem::forget(ra); std::mem::forget(rv); std::mem::forget(rb); std::mem::forget(rp); std::mem::forget(pre);')
+
+    def h_c18e(self, w: W, t: str, L: int):
+        """encode laws on arbitrary drawn values (including ones on which encode fails)"""
+        w(f'#[kani::proof]\n#[kani::unwind({self.unwind_v() + 1})]')
+        w.open(f'fn c18e_{t}() {{')
+        w('let mut drawn = true;')
+        w(f'let rv_ = draw_{t}(&mut KaniSrc, {self.K}, {self.K}, &mut drawn);')
+        w('kani::assume(drawn);')
+        w(f'let v = match build_{t}(&rv_) {{ Some(v) => v, None => return }};')
+        w('kani::cover!(true, "accepting path");')
+        self._encode_laws(w, 'v')
+        w('std::mem::forget(v);')
+        w.close()
+
     def unwind_v(self) -> int:
         """loops of the value-driven harnesses: draw loops (<= 6), arrays <= K, output <= OCAP via memcpy,
         decode of the encoding (<= pcap octets)"""
@@ -211,7 +277,7 @@ class HarnessGen:
             w('use super::*;')
             w('use crate::support::*;')
             w(self.rr.emit_decode_side())
-            if any(k in ('c02', 'c03', 'c05', 'c16', 'c17', 'c06v') for k, _, _ in harnesses) or self.force_encode_side:
+            if any(k in ('c02', 'c03', 'c05', 'c16', 'c17', 'c06v', 'c18d', 'c18e') for k, _, _ in harnesses) or self.force_encode_side:
                 w(self.rr.emit_encode_side())
             w.close()
         w('#[cfg(kani)]')
